@@ -568,6 +568,9 @@ class Interp:
                 return v
             if name == "__name__":
                 return o.name
+            if name == "__new__":
+                from .values import stub as _stub
+                return _stub(lambda eng, cls, *a, **k: VObj(cls))
             raise PyRaise(self.make_exc("AttributeError", name))
         if isinstance(o, VFunc):
             if name in o.attrs:
